@@ -20,9 +20,15 @@ import (
 // value that very call returns; every read is keyed by that parameter and its value is only returned.
 func typeOfPure(c *core.Ctx) {
 	c.Doc("type-name-pure", 1, "TypeOf depends on the type alone: no package state, except read-only tables, locks, and memos keyed by the queried type holding the returned name")
-	root := c.W.Func("duct", "TypeOf")
+	statePurity(c, "type-name-pure", "duct", "TypeOf", "TypeOf")
+}
+
+// statePurity: the function pkg.rootName and what it reaches inside its package is a function of its arguments: it
+// touches package-level state only read-only, as a lock, or as a memo obeying the memo discipline.
+func statePurity(c *core.Ctx, rule, pkg, rootName, what string) {
+	root := c.W.Func(pkg, rootName)
 	if root == nil {
-		c.Undecided("type-name-pure", "duct.TypeOf", 0, "anchor not found")
+		c.Undecided(rule, pkgShort(pkg)+"."+rootName, 0, "anchor not found")
 		return
 	}
 	// closure of static callees inside the package (generic instances resolved to their origin's package)
@@ -75,7 +81,7 @@ func typeOfPure(c *core.Ctx) {
 		}
 	}
 	if len(globals) == 0 {
-		c.Ok("type-name-pure", "duct.TypeOf", root.Pos(), fmt.Sprintf("%d functions reached, no package-level state", len(order)))
+		c.Ok(rule, pkgShort(pkg)+"."+rootName, root.Pos(), fmt.Sprintf("%d functions reached, no package-level state", len(order)))
 		return
 	}
 	var gs []*ssa.Global
@@ -86,16 +92,16 @@ func typeOfPure(c *core.Ctx) {
 	ok := true
 	var kinds []string
 	for _, g := range gs {
-		kind, pos, why := classifyGlobalUse(c, g)
+		kind, pos, why := classifyGlobalUse(c, pkg, g)
 		if why != "" {
 			ok = false
-			c.Fail("type-name-pure", "duct."+g.Name(), pos, "TypeOf depends on the package variable %s: %s", g.Name(), why)
+			c.Fail(rule, pkgShort(pkg)+"."+g.Name(), pos, "%s depends on the package variable %s: %s", what, g.Name(), why)
 			continue
 		}
 		kinds = append(kinds, g.Name()+": "+kind)
 	}
 	if ok {
-		c.Ok("type-name-pure", "duct.TypeOf", root.Pos(), strings.Join(kinds, "; "))
+		c.Ok(rule, pkgShort(pkg)+"."+rootName, root.Pos(), strings.Join(kinds, "; "))
 	}
 }
 
@@ -131,7 +137,7 @@ func isSyncType(t types.Type, names ...string) bool {
 }
 
 // classifyGlobalUse inspects every use of g in its package.
-func classifyGlobalUse(c *core.Ctx, g *ssa.Global) (kind string, pos token.Pos, why string) {
+func classifyGlobalUse(c *core.Ctx, pkg string, g *ssa.Global) (kind string, pos token.Pos, why string) {
 	if ir.ImmutableGlobal(g) {
 		return "read-only table", 0, ""
 	}
@@ -142,7 +148,7 @@ func classifyGlobalUse(c *core.Ctx, g *ssa.Global) (kind string, pos token.Pos, 
 	if !isLock && !isSyncMap && !isMap {
 		return "", g.Pos(), "it is mutable state of type " + elem.String() + " (not a read-only table, a lock or a memo)"
 	}
-	fns := c.W.SourceFuncs("duct")
+	fns := c.W.SourceFuncs(pkg)
 	if init := g.Pkg.Func("init"); init != nil {
 		fns = append(fns, init)
 	}
@@ -322,6 +328,13 @@ func memoRead(fn *ssa.Function, key ssa.Value, res ssa.Value, commaOk bool) stri
 
 // memoWrite: memo[param] = v where v is what this call returns on every return the write reaches.
 func memoWrite(fn *ssa.Function, at ssa.Instruction, key, val ssa.Value, loadOrStore ssa.Value) string {
+	nArgs := len(fn.Params)
+	if fn.Signature.Recv() != nil {
+		nArgs--
+	}
+	if nArgs > 1 {
+		return "a memo entry is written by " + fn.Name() + ", which has " + fmt.Sprint(nArgs) + " parameters but remembers its result under one key: a call with the same key and other arguments is answered with a result computed for different ones"
+	}
 	if !memoKeyIsParam(fn, key) {
 		return "a memo entry is written under " + key.Name() + " (" + strings.TrimSpace(key.String()) + "), which is not the unmodified parameter of " + fn.Name() + ": a later question about another type is answered with this name"
 	}
